@@ -60,6 +60,7 @@ pub enum Cat {
     Drop,
     Mail,
     Move,
+    Serde,
 }
 
 pub struct Profile {
@@ -71,6 +72,8 @@ pub struct Profile {
     pub par_ops: (usize, usize),
     pub post_ops: (usize, usize),
     pub fault_pct: u32,
+    /// callback classes the swarm may arm (empty = all)
+    pub fault_kinds: &'static [Cb],
     pub max_len: usize,
     pub families: &'static [usize],
 }
@@ -92,6 +95,7 @@ pub const PROFILES: &[Profile] = &[
         par_ops: (4, 24),
         post_ops: (0, 8),
         fault_pct: 12,
+        fault_kinds: &[],
         max_len: 12,
         families: ALL_FAM,
     },
@@ -103,6 +107,7 @@ pub const PROFILES: &[Profile] = &[
         par_ops: (2, 10),
         post_ops: (0, 2),
         fault_pct: 0,
+        fault_kinds: &[],
         max_len: 4,
         families: &[0, 1, 2, 4, 7, 11],
     },
@@ -114,6 +119,7 @@ pub const PROFILES: &[Profile] = &[
         par_ops: (3, 14),
         post_ops: (0, 4),
         fault_pct: 0,
+        fault_kinds: &[],
         max_len: 5,
         families: ALL_FAM,
     },
@@ -125,6 +131,7 @@ pub const PROFILES: &[Profile] = &[
         par_ops: (0, 0),
         post_ops: (0, 0),
         fault_pct: 10,
+        fault_kinds: &[],
         max_len: 6,
         families: ALL_FAM,
     },
@@ -136,6 +143,7 @@ pub const PROFILES: &[Profile] = &[
         par_ops: (0, 0),
         post_ops: (0, 0),
         fault_pct: 0,
+        fault_kinds: &[],
         max_len: 40,
         families: ALL_FAM,
     },
@@ -147,6 +155,7 @@ pub const PROFILES: &[Profile] = &[
         par_ops: (0, 0),
         post_ops: (0, 0),
         fault_pct: 0,
+        fault_kinds: &[],
         max_len: 300,
         families: ALL_FAM,
     },
@@ -158,6 +167,7 @@ pub const PROFILES: &[Profile] = &[
         par_ops: (0, 0),
         post_ops: (0, 0),
         fault_pct: 0, // the engine enumerates fault points itself
+        fault_kinds: &[],
         max_len: 6,
         families: ALL_FAM,
     },
@@ -169,6 +179,7 @@ pub const PROFILES: &[Profile] = &[
         par_ops: (3, 12),
         post_ops: (0, 4),
         fault_pct: 8,
+        fault_kinds: &[],
         max_len: 3,
         families: ALL_FAM,
     },
@@ -180,6 +191,7 @@ pub const PROFILES: &[Profile] = &[
         par_ops: (2, 10),
         post_ops: (0, 4),
         fault_pct: 8,
+        fault_kinds: &[],
         max_len: 3,
         families: ALL_FAM,
     },
@@ -191,6 +203,7 @@ pub const PROFILES: &[Profile] = &[
         par_ops: (0, 0),
         post_ops: (0, 0),
         fault_pct: 10,
+        fault_kinds: &[],
         max_len: 8,
         families: ALL_FAM,
     },
@@ -202,6 +215,7 @@ pub const PROFILES: &[Profile] = &[
         par_ops: (0, 0),
         post_ops: (0, 0),
         fault_pct: 0,
+        fault_kinds: &[],
         max_len: 9,
         families: ALL_FAM,
     },
@@ -213,6 +227,7 @@ pub const PROFILES: &[Profile] = &[
         par_ops: (0, 0),
         post_ops: (0, 0),
         fault_pct: 5,
+        fault_kinds: &[],
         max_len: 3,
         families: ALL_FAM,
     },
@@ -223,13 +238,30 @@ pub const PROFILES: &[Profile] = &[
         setup_ops: (5, 32),
         par_ops: (0, 0),
         post_ops: (0, 0),
-        fault_pct: 0,
+        fault_pct: 12,
+        fault_kinds: &[Cb::Drop, Cb::Drop, Cb::Cmp, Cb::Fmt],
         max_len: 12,
         families: ALL_FAM,
     },
 ];
 
+pub const PROFILE_C17: Profile = Profile {
+    name: "C17",
+    weights: &[(Serde, 30), (Clone, 18), (Inspect, 12), (Drop, 18), (Mail, 6), (CreateSized, 10), (Convert, 4), (Uniq, 3), (Cow, 2)],
+    threads: &[(1, 35), (2, 45), (3, 20)],
+    setup_ops: (3, 10),
+    par_ops: (3, 12),
+    post_ops: (0, 4),
+    fault_pct: 0,
+    fault_kinds: &[],
+    max_len: 3,
+    families: ALL_FAM,
+};
+
 pub fn profile(name: &str) -> Option<&'static Profile> {
+    if name == "C17" {
+        return Some(&PROFILE_C17);
+    }
     PROFILES.iter().find(|p| p.name == name)
 }
 
@@ -766,6 +798,18 @@ impl<'a> G<'a> {
                     op(OpCode::Recv, mb, d, 0)
                 }
             }
+            Serde => {
+                if !self.cfg_a {
+                    return None;
+                }
+                let src = self.of_kind(lo, hi, &[K::ArcP]);
+                let s = self.pick(&src)?;
+                let sh = self.slots[s].unwrap();
+                self.allocs[sh.alloc].owners -= 1;
+                let a = self.new_alloc(0);
+                self.set(s, K::ArcP, a);
+                op(OpCode::DeInPlace, s, 0, self.rng.below(1000))
+            }
             Move => {
                 let o = self.occupied(lo, hi);
                 let s = self.pick(&o)?;
@@ -807,7 +851,8 @@ pub fn generate(prof: &Profile, seed: u64, cfg_a: bool) -> Program {
     let switch_pct = *rng.pick(&[5u32, 15, 30, 50, 80]);
     let pct_depth = *rng.pick(&[0u32, 0, 0, 1, 2, 3]);
     let fault = if prof.fault_pct > 0 && rng.pct(prof.fault_pct) {
-        let cb = *rng.pick(&[Cb::IterNext, Cb::IterLen, Cb::IterHint, Cb::Clone, Cb::Cmp, Cb::Hash, Cb::Fmt, Cb::Closure, Cb::Clone, Cb::Closure, Cb::Drop, Cb::Drop]);
+        let all = [Cb::IterNext, Cb::IterLen, Cb::IterHint, Cb::Clone, Cb::Cmp, Cb::Hash, Cb::Fmt, Cb::Closure, Cb::Clone, Cb::Closure, Cb::Drop, Cb::Drop];
+        let cb = if prof.fault_kinds.is_empty() { *rng.pick(&all) } else { *rng.pick(prof.fault_kinds) };
         let mut v = vec![(cb, 1 + rng.below(6) as u32)];
         // sometimes a second fault later in the same run: the state left by the first unwinding
         // has to survive another one
